@@ -7,8 +7,10 @@
 (* and repetition of requests, clear_cache and re-set_up.                  *)
 (*                                                                         *)
 (* The state of one matrix object is a record st:                          *)
-(*   impl       "RayTracing" | "Interpolation": the class of the object     *)
-(*              (they differ in the set-up life cycle only, see below)      *)
+(*   impl       "RayTracing" | "Interpolation" | "FromFile": the class of   *)
+(*              the object (they differ in the set-up life cycle and in     *)
+(*              what "computing a row" means, see below)                    *)
+(*   stored     FromFile: identity of the geometry the file was written for *)
 (*   cache      set of entries [view, seg, key, bin, row]: the maps        *)
 (*              cache_collection[view][segment] : key -> row               *)
 (*              (bin is a ghost field: the bin the row was stored for)     *)
@@ -78,12 +80,12 @@ Key(b) == KeyLimbs(RealW, 16, b)
 
 (* ------------------------------ rows ------------------------------------ *)
 Row(gen, b) == [gen |-> gen, bin |-> b]
-TransformId(op, row) == [gen |-> row.gen, bin |-> BinMap(op, row.bin)]
+TransformId(op, row) == [row EXCEPT !.bin = BinMap(op, row.bin)]
 NoRow == [gen |-> -1]
 
 (* ------------------------------ the object ------------------------------ *)
 NewMatrix(impl, req, cacheOn, basicOnly) ==
-  [impl |-> impl, cache |-> {}, cacheOn |-> cacheOn, basicOnly |-> basicOnly, done |-> FALSE, gen |-> 0, req |-> req,
+  [impl |-> impl, stored |-> 0, cache |-> {}, cacheOn |-> cacheOn, basicOnly |-> basicOnly, done |-> FALSE, gen |-> 0, req |-> req,
    esw |-> NoSym, c |-> [N |-> 0], g |-> [nppr |-> 0]]
 \* defaults of the class: every symmetry on, cache enabled, only basic bins stored
 AllSym == [s90 |-> TRUE, s180 |-> TRUE, sseg |-> TRUE, ss |-> TRUE, sz |-> TRUE]
@@ -97,7 +99,21 @@ DefaultMatrix == NewMatrix("RayTracing", AllSym, TRUE, TRUE)
 (* skipped and re-creates the cache maps (no clear_cache call-out); its    *)
 (* switches and cache mode are set by parsing and the switches take effect *)
 (* at the next set_up.                                                      *)
+(* ProjMatrixByBinFromFile reads the rows of the basic bins from a file:    *)
+(* parsing the header builds the symmetries from the stored switches and   *)
+(* template geometry; set_up refuses any other image geometry (leaving the *)
+(* object as it was), otherwise re-creates the cache maps and stores every *)
+(* row of the file in them (one cache.insert call-out per row, when the    *)
+(* cache is enabled).  A row that is not found in the cache is "computed"  *)
+(* as the EMPTY row (calculate_proj_matrix_elems_for_one_bin erases it):   *)
+(* the cache is the storage of this class (known finding C03-fromfile-     *)
+(* cache: with the cache disabled or after clear_cache rows are empty).    *)
 HasSetUpFlag(st) == st.impl = "RayTracing"
+EmptyRow(gen, b) == [gen |-> gen, bin |-> b, empty |-> TRUE]
+IsEmptyRow(row) == "empty" \in DOMAIN row
+Computed(st, bb) == IF st.impl = "FromFile" THEN EmptyRow(st.gen, bb) ELSE Row(st.gen, bb)
+Refused(st) == HasSetUpFlag(st) /\ ~st.done
+
 
 Out(st, hooks, ret) == [st |-> st, hooks |-> hooks, ret |-> ret]
 
@@ -122,6 +138,19 @@ Inserted(st, b, k, f, row) ==
   IF st.cacheOn /\ f = {}
   THEN [st EXCEPT !.cache = @ \cup { [view |-> b.view, seg |-> b.seg, key |-> k, bin |-> b, row |-> row] }]
   ELSE st
+
+\* what the writer stores: the row of every basic bin of the (non-TOF) data, once
+BasicSet(c, esw) == { FindBasic(c, esw, b) : b \in AllBins(c) }
+NewFromFile(gen, c, g, headerSw, cacheOn, basicOnly) ==
+  [NewMatrix("FromFile", headerSw, cacheOn, basicOnly) EXCEPT !.stored = gen, !.c = c, !.g = g,
+                                                               !.esw = EffectiveSwitches(c, g, headerSw)]
+FileEntries(st, gen) == { [view |-> bb.view, seg |-> bb.seg, key |-> Key(bb), bin |-> bb, row |-> Row(gen, bb)] : bb \in BasicSet(st.c, st.esw) }
+\* set_up of a FromFile object for geometry gen: [st, inserts (a SET of call-outs: the order is the file's), refused]
+DoSetUpFromFile(st, gen) ==
+  IF gen # st.stored THEN [st |-> st, inserts |-> {}, refused |-> TRUE]
+  ELSE [st |-> [st EXCEPT !.cache = IF st.cacheOn THEN FileEntries(st, gen) ELSE {}, !.done = TRUE, !.gen = gen],
+        inserts |-> IF st.cacheOn THEN { EvInsert(bb, FALSE) : bb \in BasicSet(st.c, st.esw) } ELSE {},
+        refused |-> FALSE]
 
 \* enable_cache, store_only_basic_bins_in_cache: only flip the mode, the content stays
 DoEnableCache(st, v) == Out([st EXCEPT !.cacheOn = v], << >>, NoRow)
@@ -155,9 +184,9 @@ DoGet(st, b) ==
        \* find symmetry operator and basic bin; check if basic bin is in cache
        LET l1 == LookupEvents(st, bb, kbb, fbb) IN
        IF LookupHit(st, fbb) THEN Out(st, l1, TransformId(op, CachedRow(fbb)))
-       ELSE IF ~st.done THEN Out(st, l1, NoRow)
+       ELSE IF Refused(st) THEN Out(st, l1, NoRow)
        ELSE \* compute the basic row, cache it, then transform to the original bin
-            Out(Inserted(st, bb, kbb, fbb, Row(st.gen, bb)), l1 \o InsertEvents(st, bb, kbb, fbb), TransformId(op, Row(st.gen, bb)))
+            Out(Inserted(st, bb, kbb, fbb, Computed(st, bb)), l1 \o InsertEvents(st, bb, kbb, fbb), TransformId(op, Computed(st, bb)))
      ELSE
        \* if the bin is in the cache, that is the row
        LET l1 == LookupEvents(st, b, kb, fb) IN
@@ -166,17 +195,21 @@ DoGet(st, b) ==
             LET l2 == LookupEvents(st, bb, kbb, fbb) IN
             IF LookupHit(st, fbb)
             THEN LET r == TransformId(op, CachedRow(fbb)) IN Out(Inserted(st, b, kb, fb, r), l1 \o l2 \o InsertEvents(st, b, kb, fb), r)
-            ELSE IF ~st.done THEN Out(st, l1 \o l2, NoRow)
-            ELSE LET r == TransformId(op, Row(st.gen, bb)) IN Out(Inserted(st, b, kb, fb, r), l1 \o l2 \o InsertEvents(st, b, kb, fb), r)
+            ELSE IF Refused(st) THEN Out(st, l1 \o l2, NoRow)
+            ELSE LET r == TransformId(op, Computed(st, bb)) IN Out(Inserted(st, b, kb, fb, r), l1 \o l2 \o InsertEvents(st, b, kb, fb), r)
 
 (* ------------------------------ invariants ------------------------------ *)
 \* every cached entry is the row of its bin for the current geometry, under the key of that bin,
 \* and a map never holds two rows under one key
 CacheSound(st) ==
-  /\ \A e \in st.cache : e.row = Row(st.gen, e.bin) /\ e.key = Key(e.bin) /\ e.view = e.bin.view /\ e.seg = e.bin.seg
+  /\ \A e \in st.cache : (e.row = Row(st.gen, e.bin) \/ (st.impl = "FromFile" /\ e.row = EmptyRow(st.gen, e.bin))) /\ e.key = Key(e.bin) /\ e.view = e.bin.view /\ e.seg = e.bin.seg
   /\ \A e1, e2 \in st.cache : (e1.view = e2.view /\ e1.seg = e2.seg /\ e1.key = e2.key) => e1 = e2
 \* whatever the history, a request returns the row of the requested bin for the current geometry
 \* (or reports that the matrix is not set up)
-GetCorrect(st, b) == LET o == DoGet(st, b) IN o.ret = NoRow \/ o.ret = Row(st.gen, b)
+GetCorrect(st, b) == LET o == DoGet(st, b) IN
+  \/ o.ret = NoRow \/ o.ret = Row(st.gen, b)
+  \* FromFile: the empty row, exactly when the file's row of the basic bin is not (or no longer) in the cache
+  \/ /\ st.impl = "FromFile" /\ o.ret = EmptyRow(st.gen, b)
+     /\ LET bb == FindBasic(st.c, st.esw, b) IN ~(\E e \in st.cache : e.bin = bb /\ e.row = Row(st.gen, bb)) \/ ~st.cacheOn
 GetDefined(st, b) == st.done => DoGet(st, b).ret # NoRow
 =============================================================================
